@@ -1,5 +1,7 @@
 """C05 — RaggedArray directory stays structurally well-formed and self-describing."""
-from .. import hist_ragged
+import random
+
+from .. import hist_ragged, hist_stale
 from ..common import Result
 
 PID = 'C05'
@@ -22,11 +24,17 @@ MONITORS = {'ifd'}
 
 
 def cases(tier, seed):
-    return hist_ragged.history_cases(PID, tier, seed + 1000, 250, 4000)
+    yield from hist_ragged.history_cases(PID, tier, seed + 1000, 250, 4000)
+    # the ragged array is changed behind a long-lived handle (by path, second handle, re-creation) which is then used again
+    yield from hist_stale.ragged_cases(random.Random(f'C05:{seed}:stale'), 250 if tier == 'quick' else 3000, seed)
 
 
 def run_case(case, env):
     res = Result()
+    if case.get('kind') == 'stale':
+        hist_stale.run_ragged(env, res, case)
+        res.sig = hist_stale.sig_of(case)
+        return res
     hist_ragged.run(env, res, case, MONITORS)
     res.sig = hist_ragged.sig_of(case)
     return res
